@@ -389,12 +389,16 @@ pub mod csv {
                 let file = csv_w.into_inner().map_err(|e| e.to_string())?;
                 file.sync_all().map_err(|e| e.to_string())?;
                 drop(file);
+                #[cfg(feature = "verif_hooks")]
+                super::verif_hooks::step("after-sync");
                 std::fs::rename(
                     rates_csv_tmp_file_path(&self.dir_path, year),
                     rates_csv_file_path(&self.dir_path, year),
                 )
                 .map_err(|e| e.to_string())
             });
+            #[cfg(feature = "verif_hooks")]
+            super::verif_hooks::step("after-rename");
             if r.is_ok() {
                 trace!("CsvRatesCache::write_rates flushed ok");
             } else {
